@@ -50,7 +50,7 @@ def _gen_script(r: random.Random, maxlen: int) -> list:
         if not in_txn and x > 0.9:
             s.append([r.choice(["commit", "rollback"]), r.randint(0, 1), r.choice(["sql", "api"])])
             continue
-        s.append([r.choice(["ins_own", "ins_own", "ins_sh", "ins_sh", "upd_own", "del_own", "fail", "sel", "merge_own", "wp_own", "with_block", "with_block_exc"]), r.randint(0, 1)])
+        s.append([r.choice(["ins_own", "ins_own", "ins_sh", "ins_sh", "upd_own", "del_own", "fail", "sel", "merge_own", "wp_own", "with_block", "with_block_exc", "execmany_own", "execmany_fail"]), r.randint(0, 1)])
     return s
 
 
@@ -81,6 +81,7 @@ def gen_cases(tier: str, seed: int):
                 s0 = [["begin", 0], ["ins_own", 0], [end1, 0, how], ["begin", 1], ["ins_own", 1], ["upd_own", 0], [end2, 1, how], ["sel", 0]]
                 yield {"scripts": [s0, [["sel", 0]]], "order": [0] * len(s0) + [1]}
                 yield {"scripts": [s0, [["sel", 0]]], "order": [0] * len(s0) + [1], "threaded": True}
+                yield {"scripts": [s0, [["sel", 0]]], "order": [0] * len(s0) + [1], "commented": True}
             s1 = [["begin", 0], ["ins_own", 0], ["fail", 1], ["ins_sh", 0], [end1, 0, "sql"], ["sel", 1], ["begin", 0], ["fail", 0], [end2, 1, "api"]]
             yield {"scripts": [s1, [["sel", 0], ["ins_sh", 0]]], "order": [0] * 5 + [1] + [0] * 4 + [1]}
     for variant in ("begin_insert_close", "begin_insert_commit_close", "begin_close"):
@@ -88,6 +89,9 @@ def gen_cases(tier: str, seed: int):
     for failing in ("conversion", "constraint", "division"):
         for end in ("commit", "rollback"):
             yield {"kind": "runtime_failure_in_txn", "failing": failing, "end": end}
+    sx = [["ins_own", 0], ["execmany_fail", 0], ["ins_own", 1], ["execmany_own", 0], ["rollback", 0, "sql"], ["sel", 0], ["begin", 0], ["execmany_own", 1], ["execmany_fail", 0],
+          ["ins_own", 0], ["commit", 1, "api"]]
+    yield {"scripts": [sx, [["sel", 0], ["ins_sh", 0]]], "order": [0] * 6 + [1] + [0] * 5 + [1]}
     npairs = 40 if tier == "quick" else 1200
     for _ in range(npairs):
         scripts = [_gen_script(r, 4), _gen_script(r, 4)]
@@ -99,7 +103,7 @@ def gen_cases(tier: str, seed: int):
         scripts = [_gen_script(r, 7) for _ in range(k)]
         order = [i for i, s in enumerate(scripts) for _ in s]
         r.shuffle(order)
-        yield {"scripts": scripts, "order": order, "threaded": r.random() < 0.35}
+        yield {"scripts": scripts, "order": order, "threaded": r.random() < 0.35, "commented": r.random() < 0.25}
 
 
 _state: dict[str, Any] = {}
@@ -286,10 +290,13 @@ def run_case(case: dict, env: core.Env) -> None:
         return outs
 
     threaded = bool(case.get("threaded"))
+    commented = bool(case.get("commented"))  # every statement starts with a line comment
 
     def run(sql: str) -> dict:
         """Through the chosen cursor; in threaded cases cursor 1 is made and used in a helper thread of its own (the
         connection, not the thread, owns the transaction)."""
+        if commented:
+            sql = "-- a note before the statement\n" + sql
         if threaded and cidx == 1:
             env.count("statements_through_thread_made_cursor")
             return _in_thread(lambda: core.run_stmt(conns[ci].cursor(), sql))
@@ -337,6 +344,24 @@ def run_case(case: dict, env: core.Env) -> None:
             except Exception as e:  # noqa: BLE001
                 out = {"ok": False, "exc": core.exc_info(e)}
             write(own, ("ins", row))
+        elif kind == "execmany_own":
+            # executemany is its statements, one after the other, inside or outside the user's transaction
+            r1, r2 = (next(_state["uid"]), ci), (next(_state["uid"]), ci)
+            try:
+                cur_for_many = conns[ci].cursor()
+                cur_for_many.executemany(f"INSERT INTO {P}{own} VALUES (%s, %s)", [r1, r2])
+                out = {"ok": True, "rows": None}
+            except Exception as e:  # noqa: BLE001
+                out = {"ok": False, "exc": core.exc_info(e)}
+            write(own, ("ins", r1))
+            write(own, ("ins", r2))
+        elif kind == "execmany_fail":
+            # an executemany that fails to compile changes nothing: not the data, not whether a transaction is open
+            try:
+                conns[ci].cursor().executemany("INSERT INTO no_such_table_c13 VALUES (%s, %s)", [(1, 1), (2, 2)])
+                env.witness("C13/fail-statement-succeeded", "executemany into a missing table")
+            except Exception:  # noqa: BLE001
+                pass
         elif kind == "upd_own":
             out = run(f"UPDATE {P}{own} SET V = V + 1")
             write(own, ("upd",))
